@@ -134,6 +134,13 @@ md_open(struct Driver* self, uint64_t device_id, struct Device** out)
 {
     if (R.open_status != Device_Ok || !R.obj) {
         /* no object is created unless the driver reports success AND hands one out */
+        if (R.open_status != Device_Ok && R.obj && out) {
+            /* a driver that publishes the handle first, then fails its bring-up, releases the object itself and reports the failure:
+               *out is left pointing at released memory -- the HAL must not use it (it was never opened) */
+            void* p = calloc(1, sizeof(struct Camera) > sizeof(struct Storage) ? sizeof(struct Camera) : sizeof(struct Storage));
+            *out = (struct Device*)p;
+            free(p);
+        }
         logf_(" open=%lld:-", R.open_status);
         return (enum DeviceStatusCode)R.open_status;
     }
